@@ -6,6 +6,7 @@ deterministic: ints, strs, lists, tuples, dicts, sets, one namedtuple, one datac
 Module-level so that process-mode executors and sub-schedulers can import it (`props._evallib`).
 """
 import dataclasses
+import os
 import threading
 from collections import namedtuple
 from typing import Any
@@ -153,6 +154,21 @@ def busy_local(tag):
 def busy(tag):
     CALL_LOG.append(("busy", "B", tag))
     raise BusyError("B-%s" % tag, threading.Lock())
+
+
+# state OUTSIDE redun (not an argument, not in any hash): a flag directory set by the harness
+FLAKY = {"dir": None}
+
+
+@task()
+def flaky(tag):
+    """fails the first time it runs for `tag` (transient failure), succeeds afterwards"""
+    CALL_LOG.append(("flaky", "F", tag))
+    flag = os.path.join(FLAKY["dir"], "flaky-%s" % tag)
+    if not os.path.exists(flag):
+        open(flag, "w").close()
+        raise ValueError("flaky-%s" % tag)
+    return 2
 
 
 @task()
